@@ -38,6 +38,16 @@ Definition gone_seen (out : list obs) : list eaddr :=
 Definition drop_gone (p : N) (g : list eaddr) (r : list bentry) : list bentry :=
   filter (fun x => negb (N.eqb (b_ski x) p && existsb (eqb_eaddr (fa_ent (b_cli x))) g)) r.
 
+(* a discovery reply of p: it completes the address of the node-management feature it came in
+   through (entries of p made through that feature before carry the device address from now on,
+   Spec/StackObs.v nm_completion) and removes the entities it no longer lists *)
+Definition complete_bentry (p d : N) (x : bentry) : bentry :=
+  if N.eqb (b_ski x) p then {| b_srv := b_srv x; b_ski := b_ski x; b_cli := complete_cli d (b_cli x) |} else x.
+
+Definition after_reply (wd : st) (p : N) (dm : disc_msg) (out : list obs) (r : list bentry) : list bentry :=
+  drop_gone p (gone_seen out)
+    (match nm_completion wd p dm out with Some d => map (complete_bentry p d) r | None => r end).
+
 (* at most one binding per server feature *)
 Fixpoint singleb (r : list bentry) : bool :=
   match r with
